@@ -354,6 +354,14 @@ def hostile_projects(rng, count=None):
   s = _hostile_base("src", "out", leaf="t$")
   s["kind"], s["label"] = "hostile-leaf", "leaf:trailing-dollar"
   out.append(s)
+  s = _hostile_base("src", "out", leaf="t$")
+  s["files"]["src/u$.py"] = "import m1\n" + BODY
+  s["files"]["src/v$.py"] = "import c1\n" + BODY
+  s["deps"]["src/u$.py"] = ["src/m1.py"]
+  s["deps"]["src/v$.py"] = ["src/c1.py"]
+  s["requested"] = ["src/t$.py", "src/u$.py", "src/v$.py", "src/pk/a.py"]
+  s["kind"], s["label"] = "hostile-leaf", "leaf:three-trailing-dollars"
+  out.append(s)
   s = _hostile_base("src", "out", pk="pk$")
   s["kind"], s["label"] = "hostile-package", "package:trailing-dollar"
   out.append(s)
@@ -447,8 +455,11 @@ def direct_projects(rng, nrandom=10):
   R = lambda *ms: [m["path"] + m["target"] for m in ms]
   out.append(_direct_spec("system member inside a two-pass group",
                           [((a,), ()), ((b, SYS, c), (a,)), ((d,), (b, c, SYS))], R(d, b)))
+  out.append(_direct_spec("builtin member inside a two-pass group",
+                          [((a, BUILTIN, b), ()), ((c,), (a, b, BUILTIN))], R(c, a)))
   out.append(_direct_spec("group of three with system and builtin deps",
-                          [((SYS,), ()), ((a,), (SYS, BUILTIN)), ((b, c, d), (a, SYS)), ((e,), (b, c, d))],
+                          [((SYS,), ()), ((BUILTIN,), ()), ((a,), (SYS, BUILTIN)), ((b, c, d), (a, SYS)),
+                           ((e,), (b, c, d))],
                           R(e, c)))
   out.append(_direct_spec("pytype_extensions system module is analysed",
                           [((EXT,), ()), ((a,), (EXT,)), ((b,), (a, EXT))], R(b)))
@@ -466,14 +477,14 @@ def direct_projects(rng, nrandom=10):
   for k in range(nrandom):
     names = [f"g{k}_{i}" for i in range(rng.randint(3, 8))]
     mods = [_mod("src", f"{x}.py") for x in names]
-    groups, i = [], 0
+    groups, i = [((SYS,), ()), ((SYS2,), ()), ((BUILTIN,), ())], 0   # every dep is itself a node
     earlier = []
     while i < len(mods):
       size = rng.choice([1, 1, 1, 2, 2, 3])
       g = mods[i:i + size]
       i += size
-      if rng.random() < 0.15:
-        g = g + [rng.choice([SYS, SYS2])]
+      if rng.random() < 0.15 and len(g) > 1:
+        g = g + [_mod("src", f"sysmember{k}_{i}.py", "System")]   # a system module inside a cycle
       dd = [m for m in earlier if rng.random() < 0.4]
       if rng.random() < 0.2:
         dd.append(rng.choice([SYS, BUILTIN, SYS2]))
